@@ -23,3 +23,23 @@ chk("C27", "E1 program explorer + E2",
     "Every node of the unlowered, raw-lowered, simplified, lowered, fused and materialized trees of every program of the bounded E1 space has a well-formed transfer estimate (pair, 0<=min<=max, NaN only with unknown sizes, aliases and same-chunk rechunks move nothing).",
     "Trusted: small-scope bounds as C01.",
     "DESIGN.md §4 C27")
+chk("C13", "E2 pure-function enumerator",
+    "complete enumeration of the helpers' finite input spaces against brute-force index arithmetic on range(n)",
+    "fuse_slice over every pair of basic indices (ints, slices of all signs/steps, None; bare, tuple and rank-2 forms) for n<=6, normalize_slice/normalize_index over the same set plus lists and masks, _slice_1d/new_blockdim/_compute_sliced_chunks/_slice_chunks for every chunking of every n<=7 over the image of normalize_slice, _compose_slices over unit-step region nests of depth 3 -- all enumerated completely and compared with applying the indices to range(n).",
+    "Trusted: NumPy indexing of arange as the oracle; helpers' contract domain = normalized input for the block planners.",
+    "DESIGN.md §4 C13")
+chk("C15", "E2 pure-function enumerator",
+    "complete enumeration of (old,new) chunking pairs x planner parameters; plan invariants + crosswalk brute force + executing the real rechunk layer",
+    "Every pair of chunkings of each small shape x itemsize x threshold x block-size limit x degree-limit goes through the real plan_rechunk; plan shape, budget, the old_to_new crosswalk of every step (each new block covered exactly once by contiguous in-bounds pieces) and the executed _compute_rechunk layer on labelled data are checked.",
+    "Trusted: small shapes (n<=7, (4,4), (3,5), (2,2,3)); the budget formula is the one stated in the property.",
+    "DESIGN.md §4 C15")
+chk("C16", "E2 pure-function enumerator",
+    "complete enumeration of chunk specifications x shapes x dtypes x limits x previous_chunks",
+    "normalize_chunks is called on every combination of per-axis specs (ints, -1, None, 'auto', byte strings, explicit tuples, dicts) for shapes of rank <= 3 with dims 0..8, three dtypes, five limits, several previous_chunks and both tolerance settings; every accepted result is checked for validity, the byte limit on auto axes and the uniform-size rule.",
+    "Trusted: array.chunk-size-tolerance is documented slack on the limit; raises are refusals; dict keys are non-negative (callers normalise axes).",
+    "DESIGN.md §4 C16")
+chk("C17", "E2 pure-function enumerator + value check",
+    "complete enumeration of operand chunking pairs/triples x dtypes x policy x limit through unify_chunks_expr, plus computing x+y / blockwise against NumPy",
+    "unify_chunks_expr is run on every pair of chunkings of a 1-D axis, every triple on a smaller axis, every pair of 2-D chunkings and every broadcast pattern under each policy and limit; common layout, refine-only-splits and the block-growth bound are checked on every result and elemwise/blockwise values are compared with NumPy.",
+    "Trusted: limit None = unbounded; small shapes.",
+    "DESIGN.md §4 C17")
